@@ -302,7 +302,6 @@ class SigmaString(SigmaType):
         # that is kept for conversion back into a plain data structure.
         result = self.__class__()
         result.s = res
-        result.original = self.original
         return result
 
     def replace_with_placeholder(
